@@ -30,7 +30,7 @@ namespace {
 // ---------------------------------------------------------------------- plan
 // cfg part: 0 = framing, 1 = requests.   cfg proto: 0 header-stream, 1 raw-stream, 2 packet
 // framing ops:  msg <kind 0 req,1 result,2 error,3 notify> <id> <seed>     raw <seed> <len>     hdr <magic_ok> <lenkind>     mut <pos> <val>     seg <size>
-// request ops:  call <dt_ms> <method 0 echo,1 later,2 twice,3 never,4 badid,5 unknown> <seed> <withcb> <delay_ms> <retry_on_timeout>     seg <size>
+// request ops:  call <dt_ms> <method 0 echo,1 later,2 twice,3 never,4 badid,5 unknown,6 fracid> <seed> <withcb> <delay_ms> <retry_on_timeout>     seg <size>
 void generate(sim::Rng &r, uint64_t seed, const std::string &tier, sim::Plan &p) {
   bool thorough = tier == "thorough";
   long part = r.chance(450) ? 1 : 0;
@@ -46,7 +46,11 @@ void generate(sim::Rng &r, uint64_t seed, const std::string &tier, sim::Plan &p)
       sim::Op op;
       unsigned x = (unsigned)r.below(100);
       if (proto == 1 && r.chance(200)) { sim::Op ws; ws.kind = "ws"; ws.a = {(long)r.below(5)}; p.ops.push_back(ws); }     // raw stream: blanks between two JSON texts
-      if (!hostile || x < 55) { op.kind = "msg"; op.a = {(long)r.below(4), r.range(1, 1000), (long)(r.next() & 0xffffff)}; }
+      if (!hostile || x < 55) {
+        // now and then a message whose JSON text has a size around a power of two (buffer and length-field boundaries)
+        long pad_to = r.chance(130) ? r.pick((const long[]){255, 1024, 1024, 1024, 4096, 65536}) + r.range(-7, 7) : 0;
+        op.kind = "msg"; op.a = {(long)r.below(4), r.range(1, 1000), (long)(r.next() & 0xffffff), pad_to};
+      }
       else if (x < 70) { op.kind = "raw"; op.a = {(long)(r.next() & 0xffffff), r.range(1, 40)}; }
       else if (x < 85) { op.kind = "tricky"; op.a = {(long)r.below(64)}; }
       else { op.kind = "hdr"; op.a = {r.chance(800) ? 1 : 0, (long)r.below(8)}; }
@@ -70,7 +74,7 @@ void generate(sim::Rng &r, uint64_t seed, const std::string &tier, sim::Plan &p)
     for (int i = 0; i < n; ++i) {
       sim::Op op; op.kind = "call";
       long dt = r.chance(400) ? 0 : r.chance(600) ? r.range(1, 400) : r.range(400, 3000);
-      op.a = {dt, (long)r.below(6), (long)(r.next() & 0xffffff), r.chance(850) ? 1 : 0, r.pick((const long[]){1, 10, 500, 1200, 2500, 6000}), r.chance(350) ? 1 : 0};   // last: re-issue the request from inside the callback when it times out
+      op.a = {dt, (long)r.below(7), (long)(r.next() & 0xffffff), r.chance(850) ? 1 : 0, r.pick((const long[]){1, 10, 500, 1200, 2500, 6000}), r.chance(350) ? 1 : 0};   // last: re-issue the request from inside the callback when it times out
       // the link is used in both directions: now and then the peer asks this endpoint for something (answered at once, later, or never)
       if (r.chance(250)) { op.kind = "pcall"; op.a = {dt, (long)r.below(3), r.pick((const long[]){1, 10, 500, 1200, 2500, 6000})}; }
       p.ops.push_back(op);
@@ -161,6 +165,15 @@ void run_framing(const sim::Plan &plan) {
         long k = ((op.arg(0) % 4) + 4) % 4;
         std::string method = "m" + std::to_string(jr.below(5));
         Json payload = gen_json(jr, 0);
+        long pad_to = std::max(0L, std::min(200000L, op.arg(3)));
+        if (pad_to > 0 && k != 2) {
+          // measure the text with an empty filler, then fill up to exactly pad_to bytes of JSON text
+          Json wrapped = Json::object(); wrapped["p"] = payload; wrapped["z"] = "";
+          last.clear();
+          if (k == 1) enc->sendResult(id, wrapped); else enc->sendRequest(k == 0 ? id : 0, method, wrapped);
+          long base = (long)last.size() - (kind == 0 ? 6 : 0);
+          if (base > 0 && pad_to >= base) { wrapped["z"] = std::string((size_t)(pad_to - base), 'z'); payload = wrapped; sim::probe("padded_messages"); }
+        }
         last.clear();
         if (k == 0) { enc->sendRequest(id, method, payload); expect.push_back("REQ " + std::to_string(id) + " " + method + " " + payload.dump()); }
         else if (k == 1) { enc->sendResult(id, payload); expect.push_back("RSP " + std::to_string(id) + " 0 " + payload.dump()); }
@@ -392,7 +405,7 @@ int64_t link_next_due() {
 
 Json expected_result_of(long seed) { sim::Rng jr((uint64_t)seed + 5); return gen_json(jr, 1); }
 
-static const char *MN[] = {"echo", "later", "twice", "never", "badid", "nosuchmethod"};
+static const char *MN[] = {"echo", "later", "twice", "never", "badid", "nosuchmethod", "fracid"};
 
 // issue one request on endpoint A; `retries` > 0: when the callback reports a time-out, the same request is issued
 // again from inside that callback (the usual "retry on time-out" pattern)
@@ -402,7 +415,7 @@ void issue_call(long method, long seed, bool withcb, long delay_ms, int retries)
   c.method = method; c.seed = seed; c.withcb = withcb;
   Json v = expected_result_of(c.seed);
   Json params = v;
-  if (c.method == 1 || c.method == 2) { params = Json::object(); params["v"] = v; params["d"] = delay_ms; }
+  if (c.method == 1 || c.method == 2 || c.method == 6) { params = Json::object(); params["v"] = v; params["d"] = delay_ms; }
   c.expect_result = v.dump();
   size_t idx = R->calls.size();
   if (c.withcb) {
@@ -458,6 +471,23 @@ void run_requests(const sim::Plan &plan) {
     return false;
   });
 
+  // a peer that first sends a response whose id is a number but not this request's id (id + 0.5, id + 0.25), in result or
+  // error form, hand-framed; the genuine response follows: the request must complete with the genuine one
+  W.rb->addService("fracid", [](int id, const Json &params, int &, Json &) {
+    Json payload = params.is_object() && params.contains("v") ? params["v"] : Json();
+    long d = params.is_object() && params.contains("d") ? params["d"].get<long>() : 1;
+    std::string frac = (id % 2) ? ".5" : ".25";
+    std::string text = (d % 2) ? "{\"id\":" + std::to_string(id) + frac + ",\"jsonrpc\":\"2.0\",\"result\":\"bogus\"}"
+                               : "{\"error\":{\"code\":-5,\"message\":\"bogus\"},\"id\":" + std::to_string(id) + frac + ",\"jsonrpc\":\"2.0\"}";
+    std::string f;
+    if (R->kind == 0) { uint32_t L = (uint32_t)text.size(); f.push_back((char)0x5A); f.push_back((char)0xA5); f.push_back((char)(L >> 24)); f.push_back((char)(L >> 16)); f.push_back((char)(L >> 8)); f.push_back((char)L); }
+    f += text;
+    link_send(false, f.data(), f.size());
+    sim::probe("fractional_id_responses");
+    R->tp->doAfter(std::chrono::milliseconds(std::max(1L, d)), [id, payload] { R->cur_resp_id = id; R->rb->respond(id, payload); R->cur_resp_id = 0; });
+    return false;
+  });
+
   // services on A, asked for by the peer (endpoint B uses the same Rpc class, so its ids also count 1, 2, 3, ...)
   W.ra->addService("aecho", [](int, const Json &params, int &, Json &res) { res = params; return true; });
   W.ra->addService("alater", [](int id, const Json &params, int &, Json &) {
@@ -487,7 +517,7 @@ void run_requests(const sim::Plan &plan) {
     if (op->kind != "call") continue;
     t += std::max(0L, std::min(10000L, op->arg(0))) * 1000000;
     tl.at(t, [op] {
-      R->loop->runInLoop([op] { issue_call(((op->arg(1) % 6) + 6) % 6, op->arg(2), op->arg(3) != 0, std::max(1L, std::min(20000L, op->arg(4))), op->arg(5) != 0 ? 1 : 0); }, "c14.call");
+      R->loop->runInLoop([op] { issue_call(((op->arg(1) % 7) + 7) % 7, op->arg(2), op->arg(3) != 0, std::max(1L, std::min(20000L, op->arg(4))), op->arg(5) != 0 ? 1 : 0); }, "c14.call");
     }, (int)i);
   }
   int64_t t_end = t + (2 * timeout_s + 9) * 1000000000LL;
